@@ -15,14 +15,16 @@ import (
 
 // One C52 case as printed by specs/Mod/GenCors.tla.
 type corsCase struct {
-	ID   int `json:"id"`
-	Rule struct {
+	ID    int `json:"id"`
+	Rules []struct {
+		Cond    string   `json:"cond"`
 		Origins []string `json:"origins"`
 		Cred    bool     `json:"cred"`
 		Full    bool     `json:"full"`
-	} `json:"rule"`
+	} `json:"rules"` // the product's ordered rule list
 	Req struct {
 		Method string   `json:"method"`
+		Path   string   `json:"path"`
 		Origin string   `json:"origin"`
 		Acrm   string   `json:"acrm"`
 		Vary   []string `json:"vary"`
@@ -40,18 +42,22 @@ type corsObs struct {
 }
 
 func corsRuleFile(c *corsCase) string {
-	rule := map[string]interface{}{
-		"Cond":                          "default_t()",
-		"AccessControlAllowOrigins":     c.Rule.Origins,
-		"AccessControlAllowCredentials": c.Rule.Cred,
+	rules := make([]interface{}, 0, len(c.Rules))
+	for _, r := range c.Rules {
+		rule := map[string]interface{}{
+			"Cond":                          r.Cond,
+			"AccessControlAllowOrigins":     r.Origins,
+			"AccessControlAllowCredentials": r.Cred,
+		}
+		if r.Full {
+			rule["AccessControlExposeHeaders"] = []string{"X-Custom-Header"}
+			rule["AccessControlAllowMethods"] = []string{"GET", "PUT"}
+			rule["AccessControlAllowHeaders"] = []string{"X-Custom-Header"}
+			rule["AccessControlMaxAge"] = 600
+		}
+		rules = append(rules, rule)
 	}
-	if c.Rule.Full {
-		rule["AccessControlExposeHeaders"] = []string{"X-Custom-Header"}
-		rule["AccessControlAllowMethods"] = []string{"GET", "PUT"}
-		rule["AccessControlAllowHeaders"] = []string{"X-Custom-Header"}
-		rule["AccessControlMaxAge"] = 600
-	}
-	return mustJSON(map[string]interface{}{"Version": "v1", "Config": map[string]interface{}{product: []interface{}{rule}}})
+	return mustJSON(map[string]interface{}{"Version": "v1", "Config": map[string]interface{}{product: rules}})
 }
 
 func corsRun() {
@@ -99,7 +105,7 @@ func corsRun() {
 		if c.Req.Acrm != "" {
 			hdr = append(hdr, [2]string{"Access-Control-Request-Method", c.Req.Acrm})
 		}
-		req, err := mkReq(c.Req.Method, "origin", "a.example.com", "/x", "", hdr)
+		req, err := mkReq(c.Req.Method, "origin", "a.example.com", c.Req.Path, "", hdr)
 		if err != nil {
 			vh.Emit(map[string]interface{}{"id": c.ID, "_bad_case": "request does not parse: " + err.Error()})
 			return
